@@ -71,6 +71,7 @@ func runC12(c *Ctx) {
 	ruleNoIfaceEq(c, fns)
 	ruleSizeGuard(c, "slice")
 	ruleLCSDiagonal(c)
+	ruleRowLength(c)
 
 	// ---- R-LEAN-AGREE
 	lean := func(callee *ssa.Function) (string, string) {
